@@ -310,6 +310,56 @@ def rule_i5(repo, col):
                construct="def _set_value: weight pair", function="SimpleDDNNFEvaluator._set_value")
 
 
+def _sum_like_plus(meth):
+    """plus() of a semiring is the (non-idempotent) sum: returns `a + b`, a text "... + ..." of both operands, or a log-sum-exp of them"""
+    a, b = (meth.params + [None, None])[1:3]
+    for r in ast.walk(meth.node):
+        if isinstance(r, ast.Return) and r.value is not None:
+            v = r.value
+            if isinstance(v, ast.BinOp) and isinstance(v.op, ast.Add) and {norm(v.left), norm(v.right)} == {a, b}:
+                return "a + b"
+            if isinstance(v, ast.BinOp) and isinstance(v.op, ast.Mod) and isinstance(v.left, ast.Constant) and isinstance(v.left.value, str) and "+" in v.left.value:
+                return "text '%s'" % v.left.value
+            src = norm(v)
+            if ("math.log" in src or "log1p" in src) and "math.exp" in src:
+                return "log-sum-exp"
+    return None
+
+
+def rule_i6(repo, col):
+    """every semiring of the package whose addition is a true sum (probabilities, log-probabilities, symbolic sums) announces is_dsp(): that flag is what makes
+    get_evaluatable(semiring=...) choose a compiled (deterministic, decomposable) circuit; on a plain NNF a sum over non-disjoint proofs counts worlds twice"""
+    from ..index import ClassInfo
+    from ..astutil import single_return_expr
+
+    base = repo.cls("problog.evaluator", "Semiring")
+    n = 0
+    for c in sorted(repo.all_classes(), key=lambda c_: (c_.module.name, c_.name)):
+        if c is base or ".test" in c.module.name:
+            continue
+        mro = [k for k in repo.mro(c) if isinstance(k, ClassInfo)]
+        if base not in mro:
+            continue
+        plus = next((k.methods["plus"] for k in mro if "plus" in k.methods), None)
+        if plus is None or plus.cls is base if hasattr(plus, "cls") else False:
+            continue
+        kind = _sum_like_plus(plus)
+        if kind is None:
+            continue
+        meth = next((k.methods["is_dsp"] for k in mro if "is_dsp" in k.methods), None)
+        if meth is None:
+            raise AnalysisError("%s.is_dsp not found in the class hierarchy" % c.name)
+        e = single_return_expr(meth)
+        if e is None or not isinstance(e, ast.Constant):
+            raise AnalysisError("%s: is_dsp() is not a constant" % meth.qualname)
+        n += 1
+        col.decide("I6", c.module, c.node, e.value is True, "%s (plus = %s) requires a disjoint sum: is_dsp() is True (%s)" % (c.name, kind, meth.qualname),
+                   "%s adds weights with %s (%s) but its is_dsp() is %s (from %s): get_evaluatable(semiring=...) then picks the uncompiled NNF for it, whose disjunctions are not "
+                   "disjoint, so q :- a. q :- b. evaluates to p(a) + p(b) instead of the probability - the default back-end disagrees between semirings"
+                   % (c.name, kind, plus.qualname, e.value, meth.qualname), construct="class %s: is_dsp for a sum semiring" % c.name, function=c.name)
+    col.floor("I6.sum_semirings", n, 5)
+
+
 def run(repo, col):
     col.rule("I1", "evaluator classes provide the protocol used by Evaluatable.get_evaluator/evaluate")
     col.rule("I2", "registry entries are concrete and reachable by transformations")
@@ -321,3 +371,5 @@ def run(repo, col):
     rule_i3(repo, col)
     rule_i4(repo, col)
     rule_i5(repo, col)
+    col.rule("I6", "sum semirings announce is_dsp()")
+    rule_i6(repo, col)
